@@ -49,6 +49,8 @@ type Prog struct {
 	Files     int
 	Funcs     int
 	Desugared int // tagless switches rewritten as if-chains (desugar.go)
+	Unrolled  int // loops over written-out tables rewritten as straight-line code (unroll.go)
+	Clamps    int // branch-written clamps and saturating subtractions rewritten with min/max (desugar.go)
 
 	ssaOnce sync.Once
 	SSA     *ssa.Program
@@ -152,6 +154,8 @@ func load(o loadOpts) (*Prog, error) {
 	}
 	sort.Slice(p.Pkgs, func(i, j int) bool { return p.Pkgs[i].ID < p.Pkgs[j].ID })
 	p.Desugared = desugarSwitches(p)
+	p.Unrolled = desugarTableLoops(p)
+	p.Clamps = desugarClamps(p)
 	return p, nil
 }
 
